@@ -98,7 +98,9 @@ Definition lns_answer_ok (k : milp_case) : bool :=
 Definition impl_result (k : milp_case) : milp_result :=
   mkM (o_status k) (o_solution k) (o_objective k) 0 (o_solutions k).
 Definition impl_spec_check (k : milp_case) : bool :=
-  spec_check (k_eps k) (k_c k) (k_A k) (k_b k) (k_ints k) (1 # 1000000) (impl_result k).
+  spec_check (k_eps k) (k_c k) (k_A k) (k_b k) (k_ints k)
+    ((1 # 1000000) * (1 + match o_objective k with Fin o => Qabs o | _ => 0 end))   (* objective tolerance relative to |objective| *)
+    (impl_result k).
 
 (* the boolean hypotheses of the C04 theorems on this input, with the simplex model as LP kernel *)
 Definition gate_check (k : milp_case) : bool :=
